@@ -188,6 +188,16 @@ class P:
                 e = self.expr()
             self.eat(";")
             return ("let", p, t, e)
+        if v == "const" and self.peek(2) == ":":
+            # C09: a block-local `const NAME: T = expr;` is a typed let
+            self.eat()
+            name = self.eat()
+            self.eat(":")
+            t = self.ty()
+            self.eat("=")
+            e = self.expr()
+            self.eat(";")
+            return ("let", ("pvar", name), t, e)
         if v == "return":
             self.eat()
             e = None
